@@ -27,7 +27,7 @@ theorem den_tVerdict (σ : Val) (a b : MTy) : den σ (tVerdict a b) = .verdict (
 theorem WT_tVerdict {a b : MTy} (ha : WT a = true) (hb : WT b = true) : WT (tVerdict a b) = true := by
   simp [tVerdict, WT, WTl, ha, hb, arity, nmVerdict, nmOption, nmList]
 
-set_option maxHeartbeats 400000 in
+set_option maxHeartbeats 800000 in
 mutual
 theorem soundE (env : Env) (henv : EnvPlain env) (e : Expr) (hc : coreE e = true) :
     ∀ cx g st d st', WTs st.store → WTcx cx → WTg g → infer env cx g e st = .ok d st' →
@@ -365,7 +365,58 @@ theorem soundE (env : Env) (henv : EnvPlain env) (e : Expr) (hc : coreE e = true
   | assign ic x p e =>
     simp only [coreE] at hc
     exact assign_sound henv (fun cx g st d st' a b c h' => soundE env henv e hc cx g st d st' a b c h') hW hcx hg h
-  | mcall _ _ _ | cassign _ _ _ _ _ | «match» _ _ | fstr _ => simp [coreE] at hc
+  | «match» e arms =>
+    simp only [coreE, Bool.and_eq_true, Bool.not_eq_true'] at hc
+    obtain ⟨⟨hce, hne⟩, hca⟩ := hc
+    simp only [infer] at h
+    obtain ⟨v, s1, h1, h2⟩ := bind_ok.mp h
+    obtain ⟨rfl, hE1⟩ := freshVar_ok h1
+    obtain ⟨d1, s2, h3, h4⟩ := bind_ok.mp h2
+    obtain ⟨t, s3, h5, h6⟩ := bind_ok.mp h4
+    obtain ⟨rfl, hres⟩ := resolveM_ok h5
+    obtain ⟨hW2, hp2⟩ := soundE env henv e hce (cx.withTy (.var st.store.length)) g s1 d1 s2 (hE1.1 hW)
+      (WTcx_with hcx (WT_var _)) hg h3
+    have hWt : WT t = true := resolve_WT hW2 (WT_var _) hres
+    by_cases hdiv : (d1 && !arms.isEmpty) = true
+    · simp only [hdiv, if_true] at h6; exact (throw_ok.mp h6).elim
+    · simp only [hdiv, Bool.false_eq_true, if_false] at h6
+      cases hv : variantsM env t with
+      | none => simp only [hv] at h6; exact (throw_ok.mp h6).elim
+      | some vs =>
+        simp only [hv] at h6
+        obtain ⟨stF, s4, h7, h8⟩ := bind_ok.mp h6
+        have hvs : WTvs vs := variantsM_WT henv hWt hv
+        obtain ⟨⟨hW4, hp4⟩, _⟩ := soundArms env henv arms hca cx g vs ⟨[], false, true⟩ s2 stF s4 hW2 hcx hg hvs h7
+        have hbook := inferArms_book env cx g vs arms ⟨[], false, true⟩ s2 stF s4 h7
+        by_cases hex : (!stF.dflt && decide (stF.used.length < vs.length)) = true
+        · simp only [hex, if_true] at h8; exact (throw_ok.mp h8).elim
+        · simp only [hex, Bool.false_eq_true, if_false] at h8
+          obtain ⟨rfl, rfl⟩ := pure_ok.mp h8
+          refine ⟨hW4, fun σ hσ hs => ?_⟩
+          obtain ⟨hs2, hsyn4⟩ := hp4 σ hσ hs
+          obtain ⟨hs1, hsyn2⟩ := hp2 σ hσ hs2
+          refine ⟨hE1.2 σ hs1, fun gd hgd => ?_⟩
+          obtain ⟨te, dde, a1, a2, a3⟩ := hsyn2 gd hgd
+          have a1' : synth env (denCx σ cx) gd e = .ok (te, dde) := a1
+          have hden : den σ t = den σ (.var st.store.length) := resolve_den hs2 hres
+          have a2' : inst te (den σ t) = true := by rw [hden]; exact a2
+          have hheads := heads_ok σ vs (armHeads arms) stF.used stF.dflt hbook hex
+          have hnee : (!arms.isEmpty) = true := by simp [hne]
+          rcases variantsOf_rel henv σ hσ hWt hv te a2' with hunk | ⟨vsd, hvd, hvi, hk⟩
+          · -- nothing is known about the examinee
+            obtain ⟨ts, dda, b1, b2, b3⟩ := hsyn4 gd none hgd rfl
+            obtain ⟨tr, c1, c2⟩ := foldCompat_inst "branches" (den σ cx.expected) ts .unknown b2 rfl
+            refine ⟨tr, dde || (!arms.isEmpty && dda), ?_, c2, ?_⟩
+            · exact synth_match_unknown a1' hunk b1 c1
+            · intro hd; simp [hnee, b3 hd]
+          · obtain ⟨ts, dda, b1, b2, b3⟩ := hsyn4 gd (some vsd) hgd hvi
+            obtain ⟨tr, c1, c2⟩ := foldCompat_inst "branches" (den σ cx.expected) ts .unknown b2 rfl
+            have hmh : matchHeads vsd (armHeads arms) [] false = none := by
+              rw [matchHeads_rel vsd (denVs σ vs) hvi]; exact hheads
+            refine ⟨tr, dde || (!arms.isEmpty && dda), ?_, c2, ?_⟩
+            · exact synth_match_known a1' hvd hmh b1 c1
+            · intro hd; simp [hnee, b3 hd]
+  | mcall _ _ _ | cassign _ _ _ _ _ | fstr _ => simp [coreE] at hc
 termination_by sizeOf e
 
 theorem soundList (env : Env) (henv : EnvPlain env) (es : List Expr) (hc : coreL es = true) :
@@ -402,6 +453,128 @@ theorem soundList (env : Env) (henv : EnvPlain env) (es : List Expr) (hc : coreL
       · exact Or.inl (a3 hd)
       · exact Or.inr (b3 hd)
 termination_by sizeOf es
+
+theorem soundArms (env : Env) (henv : EnvPlain env) (arms : List Arm) (hc : coreA arms = true) :
+    ∀ cx g vs (st0 : MSt) st (stF : MSt) st', WTs st.store → WTcx cx → WTg g → WTvs vs →
+      inferArms env cx g vs arms st0 st = .ok stF st' →
+      PostArms env cx g vs arms st stF st' ∧ (stF.allDiverge = true → st0.allDiverge = true) := by
+  intro cx g vs st0 st stF st' hW hcx hg hvs h
+  cases arms with
+  | nil =>
+    simp only [inferArms] at h
+    obtain ⟨rfl, rfl⟩ := pure_ok.mp h
+    exact ⟨⟨hW, fun σ _ hs => ⟨hs, fun gd vsd _ _ => ⟨[], true, by simp [synthArms, pure, Except.pure], by simp, by simp⟩⟩⟩,
+      id⟩
+  | cons a rest =>
+    cases a with
+    | mk pat guard body =>
+    have hcg : ∀ gd0, guard = some gd0 → coreE gd0 = true := by
+      intro gd0 hg0; subst hg0; simp only [coreA, Bool.and_eq_true] at hc; exact hc.1.1
+    have hcb : coreB body = true := by
+      cases guard <;> simp only [coreA, Bool.and_eq_true] at hc
+      · exact hc.1
+      · exact hc.1.2
+    have hcr : coreA rest = true := by
+      cases guard <;> simp only [coreA, Bool.and_eq_true] at hc <;> exact hc.2
+    have ihg : ∀ gd0, guard = some gd0 → IH env gd0 := fun gd0 hg0 cx g st d st' a b c h' =>
+      soundE env henv gd0 (hcg gd0 hg0) cx g st d st' a b c h'
+    rw [inferArms.eq_def] at h
+    simp only at h
+    by_cases hd : st0.dflt = true
+    · simp only [hd, if_true] at h; exact (throw_ok.mp h).elim
+    · simp only [hd, Bool.false_eq_true, if_false] at h
+      cases pat with
+      | wild =>
+        simp only at h
+        obtain ⟨dflt, s1, h1, h2⟩ := bind_ok.mp h
+        obtain ⟨db, s2, h3, h4⟩ := bind_ok.mp h2
+        obtain ⟨_, hW1, hpg⟩ := guard_sound h1 ihg hW hcx (WTg_push hg)
+        obtain ⟨hW2, hpb⟩ := soundB env henv body hcb cx ([] :: g) s1 db s2 hW1 hcx (WTg_push hg) h3
+        obtain ⟨⟨hW3, hpr⟩, hdr⟩ := soundArms env henv rest hcr cx g vs _ s2 stF st' hW2 hcx hg hvs h4
+        refine ⟨⟨hW3, fun σ hσ hs => ?_⟩, fun hF => by have := hdr hF; simp only [Bool.and_eq_true] at this; exact this.1⟩
+        obtain ⟨hs2, hsr⟩ := hpr σ hσ hs
+        obtain ⟨hs1, hsb⟩ := hpb σ hσ hs2
+        obtain ⟨hs0, hsg⟩ := hpg σ hσ hs1
+        refine ⟨hs0, fun gd vsd hgd hvo => ?_⟩
+        have hpush : gammaInst ([] :: gd) (denG σ ([] :: g)) = true := by rw [denG_push]; exact gamma_push hgd
+        obtain ⟨tb, ddb, b1, b2, b3⟩ := hsb ([] :: gd) hpush
+        obtain ⟨ts, ddr, r1, r2, r3⟩ := hsr gd vsd hgd hvo
+        have harm := synthArm_of (pat := .wild) (hsg ([] :: gd) hpush) b1
+        refine ⟨tb :: ts, ddb && ddr, ?_, ?_, ?_⟩
+        · simp only [synthArms, armPat, armBinds, declareAll, harm, r1, bind, Except.bind, pure, Except.pure]
+        · intro t' ht'
+          cases ht' with
+          | head => exact b2
+          | tail _ h' => exact r2 t' h'
+        · intro hF
+          have := hdr hF
+          simp only [Bool.and_eq_true] at this
+          simp [b3 this.2, r3 hF]
+      | variant n bs =>
+        simp only at h
+        cases hl : lookupVariantM vs n with
+        | none => simp only [hl] at h; exact (throw_ok.mp h).elim
+        | some tys =>
+          simp only [hl] at h
+          by_cases hu : st0.used.any (patNameEq n) = true
+          · simp only [hu, if_true] at h; exact (throw_ok.mp h).elim
+          · simp only [hu, Bool.false_eq_true, if_false] at h
+            obtain ⟨g', s0, h0, h0'⟩ := bind_ok.mp h
+            obtain ⟨used, s1, h1, h2⟩ := bind_ok.mp h0'
+            obtain ⟨db, s2, h3, h4⟩ := bind_ok.mp h2
+            -- the arm's scope: what the model declared, on the ground side, and what the rules declare
+            have hscope : s0 = st ∧ WTg g' ∧ ∀ σ : Val, GVal σ → ∀ gd vsd, gammaInst gd (denG σ g) = true →
+                armVariantsOk vsd (denVs σ vs) = true →
+                ∃ gd', declareAll ([] :: gd) (armBinds vsd (.variant n bs)) = some gd' ∧
+                  gammaInst gd' (denG σ g') = true := by
+              cases tys with
+              | nil =>
+                cases bs with
+                | none =>
+                  simp only at h0
+                  obtain ⟨rfl, rfl⟩ := pure_ok.mp h0
+                  refine ⟨rfl, WTg_push hg, fun σ _ gd vsd hgd _ => ⟨[] :: gd, ?_, by rw [denG_push]; exact gamma_push hgd⟩⟩
+                  cases vsd <;> simp [armBinds, declareAll]
+                | some xs => simp only at h0; exact (throw_ok.mp h0).elim
+              | cons t0 ts0 =>
+                cases bs with
+                | none => simp only at h0; exact (throw_ok.mp h0).elim
+                | some xs =>
+                  simp only at h0
+                  by_cases hlen : ((t0 :: ts0).length != xs.length) = true
+                  · simp only [hlen, if_true] at h0; exact (throw_ok.mp h0).elim
+                  · simp only [hlen, Bool.false_eq_true, if_false] at h0
+                    have hlen' : (t0 :: ts0).length = xs.length := by simpa using hlen
+                    obtain ⟨hst, hWg, hdecl⟩ := declareAllM_gen (xs.zip (t0 :: ts0)) h0
+                    refine ⟨hst.symm, hWg (WTg_push hg) (zip_WT (lookupVariantM_WT hvs hl)), fun σ hσ gd vsd hgd hvo => ?_⟩
+                    have hd := hdecl σ
+                    rw [denS_zip, denG_push] at hd
+                    exact declareAll_mono _ _ ([] :: gd) ([] :: denG σ g) (denG σ g')
+                      (armBinds_rel σ hσ hvs hl xs hlen' vsd hvo) (gamma_push hgd) hd
+            obtain ⟨rfl, hWg', hsc⟩ := hscope
+            obtain ⟨_, hW1, hpg⟩ := guard_sound h1 ihg hW hcx hWg'
+            obtain ⟨hW2, hpb⟩ := soundB env henv body hcb cx g' s1 db s2 hW1 hcx hWg' h3
+            obtain ⟨⟨hW3, hpr⟩, hdr⟩ := soundArms env henv rest hcr cx g vs _ s2 stF st' hW2 hcx hg hvs h4
+            refine ⟨⟨hW3, fun σ hσ hs => ?_⟩, fun hF => by have := hdr hF; simp only [Bool.and_eq_true] at this; exact this.1⟩
+            obtain ⟨hs2, hsr⟩ := hpr σ hσ hs
+            obtain ⟨hs1, hsb⟩ := hpb σ hσ hs2
+            obtain ⟨hs0, hsg⟩ := hpg σ hσ hs1
+            refine ⟨hs0, fun gd vsd hgd hvo => ?_⟩
+            obtain ⟨gd', e1, e2⟩ := hsc σ hσ gd vsd hgd hvo
+            obtain ⟨tb, ddb, b1, b2, b3⟩ := hsb gd' e2
+            obtain ⟨ts, ddr, r1, r2, r3⟩ := hsr gd vsd hgd hvo
+            have harm := synthArm_of (pat := .variant n bs) (hsg gd' e2) b1
+            refine ⟨tb :: ts, ddb && ddr, ?_, ?_, ?_⟩
+            · simp only [synthArms, armPat, e1, harm, r1, bind, Except.bind, pure, Except.pure]
+            · intro t' ht'
+              cases ht' with
+              | head => exact b2
+              | tail _ h' => exact r2 t' h'
+            · intro hF
+              have := hdr hF
+              simp only [Bool.and_eq_true] at this
+              simp [b3 this.2, r3 hF]
+termination_by sizeOf arms
 
 theorem soundFields (env : Env) (henv : EnvPlain env) (fs : List Field) (hc : coreF fs = true)
     (decl : List (Nat × Ty)) (hd : (decl.all fun f => plain f.2) = true) :
